@@ -39,12 +39,12 @@ ENGINE = "E1-SEQ"
 SHARDS = {"quick": 8, "thorough": 16}
 RULE = (
     "both headers range over all ordered lists of length <=2 over the token alphabet {zstd, gzip, identity, br, GZIP, "
-    "'gzip;q=0.5', ' zstd '} (57 lists incl. 'header absent') + 6 irregular values ('', ',', 'zstd,,gzip', 'Identity , ZSTD', "
-    "'zstd;level=3;q=0.9,gzip', 'deflate, br') -> 63 x 63 pairs (thorough: one header over all lists of length <=3 (400+6) x the "
+    "'gzip;q=0.5', ' zstd ', 'zstd ;q=0.9' (optional whitespace before the parameter)} (73 lists incl. 'header absent') + 9 irregular values ('', ',', 'zstd,,gzip', 'Identity , ZSTD', "
+    "'zstd;level=3;q=0.9,gzip', 'deflate, br', 'identity ; q=1, gzip', 'gzip<TAB>; q=0.5 ,ZSTD ;level=3', 'zstd; q=1;x=y , gzip ;q=1') -> 82 x 82 pairs (thorough: one header over all lists of length <=3 (585+9) x the "
     "other over length <=2, both ways) x server encode set {zstd+gzip, gzip only (VGI_HTTP_DISABLE_ZSTD), none "
     "(compression_level=None), zstd only (middleware table narrowed)} x response kind {unary, producer continuation "
     "(pre-compressed, carries a log batch and a continuation token)}; kinds {unary with log, unary error, producer init, "
-    "final producer continuation, exchange init, exchange turn} over the 14 x 14 pairs of length <=1 lists (thorough: 63 x 63). "
+    "final producer continuation, exchange init, exchange turn} over the 18 x 18 pairs of length <=1 lists (thorough: 82 x 82). "
     "One evaluation = one request; non-trivial class = (server set, kind, expected coding, where it was offered)"
 )
 TECHNIQUE = "exhaustive enumeration of header-list pairs x server sets x response kinds against a 15-line reference negotiation model; independent decoders for the body"
@@ -63,8 +63,9 @@ ASSUMPTIONS = [
     "the zstd-only encode set is reachable only by narrowing _CompressionMiddleware._levels on a factory-built app",
 ]
 
-TOKENS = ["zstd", "gzip", "identity", "br", "GZIP", "gzip;q=0.5", " zstd "]
-IRREGULAR = ["", ",", "zstd,,gzip", "Identity , ZSTD", "zstd;level=3;q=0.9,gzip", "deflate, br"]
+TOKENS = ["zstd", "gzip", "identity", "br", "GZIP", "gzip;q=0.5", " zstd ", "zstd ;q=0.9"]
+IRREGULAR = ["", ",", "zstd,,gzip", "Identity , ZSTD", "zstd;level=3;q=0.9,gzip", "deflate, br",
+             "identity ; q=1, gzip", "gzip\t; q=0.5 ,ZSTD ;level=3", "zstd; q=1;x=y , gzip ;q=1"]
 SETS = ["zstd+gzip", "gzip", "none", "zstd"]
 PRODUCIBLE = {"zstd+gzip": {"zstd", "gzip"}, "gzip": {"gzip"}, "none": set(), "zstd": {"zstd"}}
 MAIN_KINDS = ["unary", "prod-cont"]
